@@ -11,7 +11,7 @@ from . import lib, optgen, progs, opt_common as oc
 INVS = ["InvAccepted", "InvFresh", "InvStages"]
 
 
-def extra_programs():
+def extra_programs(tier="quick"):
     """sources whose compilation requests several masks from one key or inlines a body many times"""
     from .progs import S, A, inp, nd, prog
     i32, i8 = S("i32"), S("i8")
@@ -39,7 +39,9 @@ def extra_programs():
     ta, _ = wide3.table(rng, 3, "u8", "pa", list(range(1, 9)))
     tb, _ = wide3.table(rng, 2, "u8", "pb", list(range(1, 9)))
     tc, _ = wide3.table(rng, 2, "u8", "pc", list(range(1, 9)))
-    ps.append(("join_twice", prog([inp(ta), inp(tb), inp(tc), nd("Join", [1, 2], jt="Inner", hd=[["k", "k"]]), nd("Join", [4, 3], jt="Inner", hd=[["k", "k"]])]), 3))
+    # (two private joins are ~27 MB of exported graphs: TLC needs minutes only to read them -> thorough tier)
+    if tier == "thorough":
+        ps.append(("join_twice", prog([inp(ta), inp(tb), inp(tc), nd("Join", [1, 2], jt="Inner", hd=[["k", "k"]]), nd("Join", [4, 3], jt="Inner", hd=[["k", "k"]])]), 3))
     ps.append(("sort_twice", prog([inp(A("b", [3, 2])), inp(A("i32", [3])), nd("CreateNamedTuple", [1, 2], nm=["k", "v"]), nd("Sort", [3], key="k"),
                                    nd("NamedTupleGet", [4], key="v"), nd("CreateNamedTuple", [1, 5], nm=["k", "v"]), nd("Sort", [6], key="k")]), 2))
     return ps
@@ -50,8 +52,8 @@ def run(chk):
     comp = oc.compile_cases(tier, chk.seed)
     k = len(comp)
     import itertools
-    for name, p, n in extra_programs():
-        for ow, outs, mode in [([0, 1, 2][:n], [0], "Simple"), ([1] * n, [2, 0], "Default"), ([0, 1, 2][:n][::-1], [], "Extreme")]:
+    for name, p, n in extra_programs(tier):
+        for ow, outs, mode in [([0, 1, 2][:n], [0], "Simple"), ([1] * n, [2, 0], "Default"), ([0, 1, 2][:n][::-1], [], "Extreme")][:1 if name == "join_twice" else 3]:
             k += 1
             comp.append({"id": 100000 + k, "name": "compile:" + name, "prog": p, "owners": ow, "outs": outs, "mode": mode, "seed": chk.seed})
     # (0) trace validation of the stage events recorded inside the real compile_context against spec/Pipeline.tla:
